@@ -134,3 +134,25 @@ class FieldRanges:
         if not isinstance(r, Iv) or not r.finite() or r.size() > limit:
             return None
         return {v for v in range(int(r.lo), int(r.hi) + 1) if self.feasible(abstract, {field: v})}
+
+    def bit_feasible(self, abstract, field, bit, value):
+        """Is there an accepted word of some encoding of `abstract` on which bit `bit` of the kwarg
+        `field` equals `value`?  Exact (decode model); non-integer payloads count as feasible."""
+        B = self.B
+        for rm in self.models.values():
+            for name, em in rm.encodings.items():
+                if em.abstract != abstract:
+                    continue
+                v = em.kwargs.get(field)
+                if v is None:
+                    continue
+                for c, p in v.cases:
+                    cc = B.AND(c, em.accept)
+                    if cc == 0:
+                        continue
+                    if not isinstance(p, Int):
+                        return True
+                    b = p.bits[bit] if bit < len(p.bits) else (p.bits[-1] if p.signed else 0)
+                    if B.AND(cc, b if value else B.NOT(b)) != 0:
+                        return True
+        return False
